@@ -156,49 +156,10 @@ Proof.
   unfold has_legal_move_impl. change (vstm v) with c.
   rewrite (occ_bb_view p c Hc). cbn [bind]. rewrite (king_square_view p c Hc). cbn [bind].
   rewrite (gab_king k0 0 K1). cbn [bind].
-  rewrite (to_list_probe k0 _ K1 (ldiff_lt _ _ (bb_of_lt _ (king_targets_lt k0)))). fold hl_king.
+  rewrite (to_list_probe k0 _ K1 (ldiff_lt _ _ (bb_of_lt _ (king_targets_lt k0)))).
   rewrite (Hpbb p Hlegal). cbn [bind]. rewrite (Hoth' p Hlegal). cbn [bind]. rewrite D1, D2. cbn [bind].
   rewrite (dbl_word_some c Hc). cbn [bind shift_bb]. rewrite (Hocc' p Hlegal).
   fold (push_word p). fold (dbl_push_word p).
-  (* double steps *)
-  assert (Hd : first_legal lg (fun to => do mid <- sq_to_o to (Some (fwd (flip c))); do from <- sq_to_o mid (Some (fwd (flip c)));
-                                         Some (hl_move from to NORMAL)) (sq_list_of_bb (dbl_push_word p))
-               = Some (existsb lg (double_list p))).
-  { unfold double_list. apply first_legal_some. intros u Hu. apply (sq_list_in _ u (dbl_push_word_lt p)) in Hu.
-    apply (dbl_push_word_bit p Hlegal) in Hu as (s & t & Hs & E & _ & _ & E2 & _).
-    assert (Ht : t < 64) by now apply step_lt in E. assert (Hu : u < 64) by now apply step_lt in E2.
-    rewrite <- D3. rewrite (back_from (fwd c) t u Ht E2). cbn [bind]. rewrite (back_from (fwd c) s t (proj1 Hs) E). cbn [bind].
-    rewrite (from_of_eq (fwd c) t u Ht E2), (from_of_eq (fwd c) s t (proj1 Hs) E). f_equal.
-    apply hl_move_code; [apply Hs|exact Hu|reflexivity]. }
-  rewrite Hd.
-  (* single steps *)
-  rewrite <- D3. rewrite (pawn_probe (push_word p) (fwd c) (push_word_lt p)).
-  2:{ intros t Ht. apply push_word_bit in Ht as [s [Hs [E _]]]. now exists s. }
-  fold hl_push.
-  (* captures *)
-  rewrite D4w, D4e, D6w, D6e. cbn [shift_bb].
-  replace (capdir (flip c) DE) with (opp (capdir c DW)) by (clear - Hc; assert (c = 0 \/ c = 1) as [-> | ->] by lia; reflexivity).
-  replace (capdir (flip c) DW) with (opp (capdir c DE)) by (clear - Hc; assert (c = 0 \/ c = 1) as [-> | ->] by lia; reflexivity).
-  fold (cap_word p DW). fold (cap_word p DE).
-  rewrite (pawn_probe (cap_word p DW) (capdir c DW) (cap_word_lt p DW)).
-  2:{ intros t Ht. apply (cap_word_bit p Hlegal) in Ht as [s [Hs [E _]]]. now exists s. }
-  rewrite (pawn_probe (cap_word p DE) (capdir c DE) (cap_word_lt p DE)).
-  2:{ intros t Ht. apply (cap_word_bit p Hlegal) in Ht as [s [Hs [E _]]]. now exists s. }
-  fold (hl_cap DW). fold (hl_cap DE).
-  (* officers *)
-  assert (Ho : first_legal_o (fun pt => do pcs <- pbb v c pt;
-                 first_legal_o (fun from => do mv <- get_attacks_bb pt from (occ_of b);
-                    first_legal lg (fun to => Some (hl_move from to NORMAL)) (sq_list_of_bb (N.ldiff mv (occ_word b c))))
-                    (sq_list_of_bb pcs)) [KNIGHT; BISHOP; ROOK; QUEEN] = Some (existsb lg hl_off)).
-  { unfold hl_off. rewrite <- existsb_flat_map. apply first_legal_o_some. intros pt Hpt.
-    assert (Hofc : officer pt) by (unfold officer; cbn [In] in Hpt; intuition).
-    destruct (officer_lt pt Hofc) as (H7 & Hnz & _).
-    rewrite (pbb_c p Hlegal pt H7). cbn [bind]. unfold hl_off_pt. rewrite <- existsb_flat_map.
-    apply first_legal_o_some. intros from Hf.
-    apply (sq_list_in _ from (piece_word_lt b c pt)) in Hf. apply (piece_bit p pt from Hnz) in Hf as [Hf _].
-    rewrite <- (Hocc p Hlegal), (gab_officer p Hlegal pt from Hofc Hf). cbn [bind].
-    apply to_list_probe; [exact Hf|apply ldiff_lt; apply att_word_lt]. }
-  rewrite Ho.
   (* en passant *)
   assert (Hep : (if vep v =? 64 then Some false else
                  do epbb <- sq_bb (vep v);
@@ -221,7 +182,385 @@ Proof.
         by (clear - Hc; assert (c = 0 \/ c = 1) as [-> | ->] by lia; reflexivity).
       pose proof (ep_probe DW (or_introl eq_refl) He) as P1. pose proof (ep_probe DE (or_intror eq_refl) He) as P2.
       cbv zeta in P1, P2. rewrite P1, P2. apply or_else_some. }
-  rewrite Hep. rewrite !or_else_some. f_equal. unfold hl_cands. rewrite !existsb_app. reflexivity.
+  cbv zeta in Hep. rewrite Hep.
+  (* officers *)
+  assert (Ho : first_legal_o (fun pt => do pcs <- pbb v c pt;
+                 first_legal_o (fun from => do mv <- get_attacks_bb pt from (occ_of b);
+                    first_legal lg (fun to => Some (hl_move from to NORMAL)) (sq_list_of_bb (N.ldiff mv (occ_word b c))))
+                    (sq_list_of_bb pcs)) [KNIGHT; BISHOP; ROOK; QUEEN] = Some (existsb lg hl_off)).
+  { unfold hl_off. rewrite <- existsb_flat_map. apply first_legal_o_some. intros pt Hpt.
+    assert (Hofc : officer pt) by (unfold officer; cbn [In] in Hpt; intuition).
+    destruct (officer_lt pt Hofc) as (H7 & Hnz & _).
+    rewrite (pbb_c p Hlegal pt H7). cbn [bind]. unfold hl_off_pt. rewrite <- existsb_flat_map.
+    apply first_legal_o_some. intros from Hf.
+    apply (sq_list_in _ from (piece_word_lt b c pt)) in Hf. apply (piece_bit p pt from Hnz) in Hf as [Hf _].
+    rewrite <- (Hocc p Hlegal), (gab_officer p Hlegal pt from Hofc Hf). cbn [bind].
+    apply to_list_probe; [exact Hf|apply ldiff_lt; apply att_word_lt]. }
+  rewrite Ho.
+  (* double steps *)
+  assert (Hd : first_legal lg (fun to => do mid <- sq_to_o to (Some (fwd (flip c))); do from <- sq_to_o mid (Some (fwd (flip c)));
+                                         Some (hl_move from to NORMAL)) (sq_list_of_bb (dbl_push_word p))
+               = Some (existsb lg (double_list p))).
+  { unfold double_list. apply first_legal_some. intros u Hu. apply (sq_list_in _ u (dbl_push_word_lt p)) in Hu.
+    apply (dbl_push_word_bit p Hlegal) in Hu as (s & t & Hs & E & _ & _ & E2 & _).
+    assert (Ht : t < 64) by now apply step_lt in E. assert (Hu : u < 64) by now apply step_lt in E2.
+    rewrite <- D3. rewrite (back_from (fwd c) t u Ht E2). cbn [bind]. rewrite (back_from (fwd c) s t (proj1 Hs) E). cbn [bind].
+    rewrite (from_of_eq (fwd c) t u Ht E2), (from_of_eq (fwd c) s t (proj1 Hs) E). f_equal.
+    apply hl_move_code; [apply Hs|exact Hu|reflexivity]. }
+  rewrite Hd.
+  (* single steps *)
+  rewrite <- D3. rewrite (pawn_probe (push_word p) (fwd c) (push_word_lt p)).
+  2:{ intros t Ht. apply push_word_bit in Ht as [s [Hs [E _]]]. now exists s. }
+  rewrite D3.
+  (* captures *)
+  rewrite D4w, D4e, D6w, D6e. cbn [shift_bb].
+  replace (capdir (flip c) DE) with (opp (capdir c DW)) by (clear - Hc; assert (c = 0 \/ c = 1) as [-> | ->] by lia; reflexivity).
+  replace (capdir (flip c) DW) with (opp (capdir c DE)) by (clear - Hc; assert (c = 0 \/ c = 1) as [-> | ->] by lia; reflexivity).
+  fold (cap_word p DW). fold (cap_word p DE).
+  rewrite (pawn_probe (cap_word p DW) (capdir c DW) (cap_word_lt p DW)).
+  2:{ intros t Ht. apply (cap_word_bit p Hlegal) in Ht as [s [Hs [E _]]]. now exists s. }
+  rewrite (pawn_probe (cap_word p DE) (capdir c DE) (cap_word_lt p DE)).
+  2:{ intros t Ht. apply (cap_word_bit p Hlegal) in Ht as [s [Hs [E _]]]. now exists s. }
+  rewrite !or_else_some. f_equal. unfold hl_cands, hl_king, hl_push, hl_cap. rewrite !existsb_app. reflexivity.
 Qed.
 
 End HasLegal.
+
+(** ** rules: legality does not depend on the piece a pawn promotes to *)
+Lemma walkb_zero_ext b1 b2 d : (forall u, (at_ b1 u =? 0) = (at_ b2 u =? 0)) ->
+  forall n s, walkb n b1 d s = walkb n b2 d s.
+Proof.
+  intros H. induction n as [|n IH]; intros s; cbn [walkb]; [reflexivity|].
+  destruct (step d s) as [t|]; [|reflexivity]. rewrite (H t), IH. reflexivity.
+Qed.
+
+Lemma rays_zero_ext b1 b2 dirs s : (forall u, (at_ b1 u =? 0) = (at_ b2 u =? 0)) -> rays_from b1 dirs s = rays_from b2 dirs s.
+Proof. intros H. unfold rays_from. f_equal. apply map_ext. intros d. now apply walkb_zero_ext. Qed.
+
+Lemma type_clause_zero_ext b1 b2 s x a ty : (forall u, (at_ b1 u =? 0) = (at_ b2 u =? 0)) ->
+  type_clause b1 s x a ty = type_clause b2 s x a ty.
+Proof. intros H. unfold type_clause. now rewrite !(rays_zero_ext b1 b2 _ a H). Qed.
+
+Section ProbeLegal.
+Variable p : pos.
+Hypothesis Hlegal : legal_pos p = true.
+Local Notation b := (brd p).
+Local Notation c := (stm p).
+Local Notation ec := (flip (stm p)).
+Local Notation k0 := (king_sq (brd p) (stm p)).
+
+(* the king is found on the same square and is attacked by the same pieces when the piece
+   arriving on t is replaced by another own non-king piece *)
+Lemma in_check_same_arrival s t pc1 pc2 (b1 b2 : list N) :
+  s < 64 -> t < 64 -> k0 <> s -> k0 <> t ->
+  (forall a, at_ b1 a = if a =? t then pc1 else if a =? s then 0 else at_ b a) ->
+  (forall a, at_ b2 a = if a =? t then pc2 else if a =? s then 0 else at_ b a) ->
+  pc1 <> 0 -> pc2 <> 0 -> colour_of pc1 = c -> colour_of pc2 = c ->
+  pc1 <> mk_piece c KING -> pc2 <> mk_piece c KING ->
+  in_check_b b1 c = in_check_b b2 c.
+Proof.
+  intros Hs Ht Nks Nkt H1 H2 Z1 Z2 C1 C2 K1' K2'.
+  destruct (king_facts p Hlegal) as (K1 & K2 & K3).
+  pose proof (legal_wfp p Hlegal) as Hw. pose proof (wf_stm p Hw) as Hc.
+  assert (Hec : ec < 2 /\ ec <> c) by (clear - Hc; unfold flip; lia). destruct Hec as [E1 E2].
+  assert (Hk : forall bi pci, (forall a, at_ bi a = if a =? t then pci else if a =? s then 0 else at_ b a) ->
+                              pci <> mk_piece c KING -> king_sq bi c = k0).
+  { intros bi pci Hi Hp. apply king_sq_intro; [exact K1| |].
+    - rewrite Hi. replace (k0 =? t) with false by (symmetry; now apply N.eqb_neq).
+      replace (k0 =? s) with false by (symmetry; now apply N.eqb_neq). exact K2.
+    - intros a Ha E. rewrite Hi in E. destruct (N.eqb_spec a t); [contradiction|].
+      destruct (N.eqb_spec a s); [symmetry in E; now apply mkp_king_nz in E|now apply K3]. }
+  unfold in_check_b. rewrite (Hk b1 pc1 H1 K1'), (Hk b2 pc2 H2 K2').
+  assert (Hz : forall u, (at_ b1 u =? 0) = (at_ b2 u =? 0)).
+  { intros u. rewrite H1, H2. destruct (u =? t); [|reflexivity].
+    replace (pc1 =? 0) with false by (symmetry; now apply N.eqb_neq).
+    replace (pc2 =? 0) with false by (symmetry; now apply N.eqb_neq). reflexivity. }
+  assert (Hatt : forall a, att_from b1 k0 ec a = att_from b2 k0 ec a).
+  { intros a. rewrite !att_from_clause. rewrite H1, H2. destruct (N.eqb_spec a t) as [Ea|Ea].
+    - rewrite C1, C2. replace (c =? ec) with false by (symmetry; apply N.eqb_neq; congruence).
+      now rewrite !andb_false_r.
+    - now rewrite (type_clause_zero_ext b1 b2 k0 ec a _ Hz). }
+  apply bool_eq_iff. rewrite !(attacked_ex _ k0 ec K1 E1). split; intros [a [Ha Hx]]; exists a; (split; [exact Ha|]).
+  - now rewrite <- Hatt.
+  - now rewrite Hatt.
+Qed.
+
+Lemma normal_probe_legal s t pr : s < 64 -> t < 64 -> at_ b s = mk_piece c PAWN ->
+  (at_ b t = 0 \/ (at_ b t <> 0 /\ colour_of (at_ b t) <> c)) -> prom_piece pr ->
+  is_legal p (mkmv s t NORMAL 3) = is_legal p (mkmv s t PROMOTION pr).
+Proof.
+  intros Hs Ht Hat Hto Hpr. destruct (king_facts p Hlegal) as (K1 & K2 & K3).
+  pose proof (legal_wfp p Hlegal) as Hw. pose proof (wf_stm p Hw) as Hc. pose proof (wf_len p Hw) as Hlen.
+  assert (Hpr' : 3 <= pr <= 6) by (destruct Hpr as [->|[->|[->| ->]]]; vm_compute; split; discriminate).
+  unfold is_legal. cbn [mtype]. change (NORMAL =? CASTLING) with false. change (PROMOTION =? CASTLING) with false.
+  cbn [andb]. apply (f_equal negb).
+  apply (in_check_same_arrival s t (at_ b s) (mk_piece c pr)); try assumption.
+  - intros E. rewrite <- E, K2 in Hat. apply mk_piece_inj in Hat; unfold KING, PAWN in *; lia.
+  - intros E. rewrite <- E, K2 in Hto. destruct Hto as [Hto|[_ Hto]]; [now apply mkp_king_nz in Hto|].
+    rewrite mkp_colour_king in Hto. now apply Hto.
+  - intros a. now rewrite (at_make_simple p (mkmv s t NORMAL 3) Hlen Hs Ht (or_introl eq_refl) a).
+  - intros a. now rewrite (at_make_simple p (mkmv s t PROMOTION pr) Hlen Hs Ht (or_intror eq_refl) a).
+  - rewrite Hat. apply mkp_nz. unfold PAWN. lia.
+  - apply mkp_nz. lia.
+  - rewrite Hat. apply mk_piece_colour. unfold PAWN. lia.
+  - apply mk_piece_colour. lia.
+  - rewrite Hat. intros E. apply mk_piece_inj in E; unfold KING, PAWN in *; lia.
+  - intros E. apply mk_piece_inj in E; unfold KING in *; lia.
+Qed.
+
+End ProbeLegal.
+
+(** ** rules: legal castling implies a legal king step *)
+(* the four (king from, transit) pairs *)
+Definition transit_pairs : list (N * N) := [(4, 5); (4, 3); (60, 61); (60, 59)].
+
+Lemma transit_geom_check :
+  forallb (fun '(kf, tr) =>
+    existsb (N.eqb tr) (king_targets kf) &&
+    forallb (fun e => forallb (fun a =>
+      if ray_in 0 e tr a && existsb (N.eqb kf) (btw e tr a)
+      then ray_in 0 e kf a && forallb (fun u => existsb (N.eqb u) (btw e tr a)) (btw e kf a)
+      else true) squares64) all_dirs) transit_pairs = true.
+Proof. vm_compute. reflexivity. Qed.
+
+Lemma transit_geom kf tr e a : In (kf, tr) transit_pairs -> a < 64 ->
+  In tr (king_targets kf) /\
+  (ray_in 0 e tr a = true -> In kf (btw e tr a) ->
+   ray_in 0 e kf a = true /\ forall u, In u (btw e kf a) -> In u (btw e tr a)).
+Proof.
+  intros Hin Ha. pose proof transit_geom_check as H. rewrite forallb_forall in H. specialize (H _ Hin). cbv beta iota in H.
+  apply andb_true_iff in H as [H1 H2]. split; [now apply existsb_eqb_In|].
+  intros Hr Hk. rewrite forallb_forall in H2. specialize (H2 e (in_all_dirs e)).
+  pose proof (forall_squares _ H2 a Ha) as G. cbv beta in G. rewrite Hr in G.
+  replace (existsb (N.eqb kf) (btw e tr a)) with true in G by (symmetry; now apply existsb_eqb_In). cbn [andb] in G.
+  apply andb_true_iff in G as [G1 G2]. split; [exact G1|]. intros u Hu. rewrite forallb_forall in G2.
+  apply existsb_eqb_In. now apply G2.
+Qed.
+
+Lemma no_self_attack' bd t x a ty : t < 64 -> x < 2 -> 1 <= ty <= 6 -> type_clause bd t x a ty = true -> a <> t.
+Proof.
+  intros Ht Hx Hty Hcl E. subst a. unfold type_clause in Hcl.
+  assert (Hs : forall ty', ~ In t (spec_targets bd ty' t)) by (intros ty'; now apply targets_not_self).
+  destruct (ty =? PAWN).
+  { pose proof self_attack_check as H. rewrite forallb_forall in H. assert (Hin : In x [0;1]) by (cbn [In]; clear - Hx; lia).
+    pose proof (forall_squares _ (H x Hin) t Ht) as G. cbv beta in G. now rewrite Hcl in G. }
+  destruct (ty =? KNIGHT) eqn:E1; [apply existsb_eqb_In in Hcl; apply (Hs KNIGHT); exact Hcl|].
+  destruct (ty =? KING) eqn:E2; [apply existsb_eqb_In in Hcl; apply (Hs KING); exact Hcl|].
+  destruct (ty =? ROOK) eqn:E3; [apply existsb_eqb_In in Hcl; apply (Hs ROOK); exact Hcl|].
+  destruct (ty =? BISHOP) eqn:E4; [apply existsb_eqb_In in Hcl; apply (Hs BISHOP); exact Hcl|].
+  destruct (ty =? QUEEN) eqn:E5; [apply existsb_eqb_In in Hcl; apply (Hs QUEEN); exact Hcl|discriminate].
+Qed.
+
+Section CastleStep.
+Variable p : pos.
+Hypothesis Hlegal : legal_pos p = true.
+Local Notation b := (brd p).
+Local Notation c := (stm p).
+Local Notation ec := (flip (stm p)).
+
+Lemma castle_implies_king_step m : In m (pseudo p) -> mtype m = CASTLING -> is_legal p m = true ->
+  exists m', In m' (pseudo p) /\ is_legal p m' = true /\ mtype m' = NORMAL /\ mover p m' = KING.
+Proof.
+  intros Hm Hc His. destruct (king_facts p Hlegal) as (K1 & K2 & K3).
+  pose proof (legal_wfp p Hlegal) as Hw. pose proof (wf_stm p Hw) as Hcc. pose proof (wf_len p Hw) as Hlen.
+  assert (Hec : ec < 2 /\ ec <> c) by (clear - Hcc; unfold flip; lia). destruct Hec as [E1 E2].
+  destruct (pseudo_inv p m Hm) as [Hf Ht Hnz Hcol Hto Hty|E|kf kt rf bit em Hin E Hk Hr Hem].
+  { destruct Hty as [[E _]|[E _]]; rewrite E in Hc; discriminate. }
+  { rewrite E in Hc. discriminate. }
+  set (tr := castle_transit kt).
+  assert (Hd : In (kf, tr) transit_pairs /\ In tr em /\ kf < 64 /\ tr < 64 /\ kf <> tr).
+  { subst tr. apply castles_in in Hin. clear - Hin.
+    decompose [or] Hin; match goal with X : (_, _, _, _, _) = _ |- _ => injection X as -> -> -> -> -> end; cbn; repeat split; auto; lia. }
+  destruct Hd as (Hp & Htrem & Hkf & Htr & Nkt).
+  unfold is_piece in Hk. apply N.eqb_eq in Hk. assert (Ekf : kf = king_sq b c) by now apply K3.
+  rewrite forallb_forall in Hem. pose proof (Hem tr Htrem) as Htr0. apply N.eqb_eq in Htr0.
+  (* legality of castling *)
+  unfold is_legal in His. rewrite E in His. cbn [mtype mfrom mto] in His. rewrite N.eqb_refl in His. fold tr in His.
+  apply andb_true_iff in His as [His _]. apply andb_true_iff in His as [Na Nt].
+  apply negb_true_iff in Na, Nt.
+  destruct (transit_geom kf tr DN kf Hp Hkf) as [Htk _].
+  set (m' := mkmv kf tr NORMAL 3).
+  assert (Hm' : In m' (pseudo p)).
+  { apply pseudo_of_shape. apply (ps_simple p kf tr KING Hkf); [now right|exact Hk|exact Htk|].
+    unfold free_or_enemy. now rewrite Htr0. }
+  exists m'. split; [exact Hm'|]. split; [|split; [reflexivity|]].
+  2:{ unfold mover, piece_at, m'. cbn [mfrom]. rewrite Hk. apply mk_piece_type. unfold KING. lia. }
+  (* the king on the transit square is not attacked *)
+  assert (Hat : forall a, at_ (brd (make p m')) a = if a =? tr then at_ b kf else if a =? kf then 0 else at_ b a).
+  { intros a. now rewrite (at_make_simple p m' Hlen Hkf Htr (or_introl eq_refl) a). }
+  assert (Hks : king_sq (brd (make p m')) c = tr).
+  { apply king_sq_intro; [exact Htr| |].
+    - rewrite Hat, N.eqb_refl. exact Hk.
+    - intros s Hs Es. rewrite Hat in Es. destruct (N.eqb_spec s tr) as [X|X]; [exact X|exfalso].
+      destruct (N.eqb_spec s kf) as [Y|Y]; [symmetry in Es; now apply mkp_king_nz in Es|].
+      apply Y. rewrite Ekf. now apply K3. }
+  unfold is_legal. cbn [mtype]. change (NORMAL =? CASTLING) with false. cbn [andb]. apply negb_true_iff.
+  unfold in_check_b. rewrite Hks.
+  destruct (attacked (brd (make p m')) tr ec) eqn:Hatt; [exfalso|reflexivity].
+  apply (attacked_ex _ tr ec Htr E1) in Hatt as [a [Ha Hx]].
+  pose proof (not_attacked_all b tr ec Htr E1 Nt a Ha) as Nta.
+  pose proof (not_attacked_all b kf ec Hkf E1 Na a Ha) as Nka.
+  apply att_from_inv in Hx as (ty & Hty & Haty & Hcl).
+  assert (Natr : a <> tr) by (apply (no_self_attack' _ tr ec a ty Htr E1 Hty Hcl)).
+  assert (Nakf : a <> kf).
+  { intros X. rewrite X, Hat in Haty. replace (kf =? tr) with false in Haty by (symmetry; now apply N.eqb_neq).
+    rewrite N.eqb_refl in Haty. symmetry in Haty. apply mkp_nz in Haty; [exact Haty|clear - Hty; lia]. }
+  assert (Haty0 : at_ b a = mk_piece ec ty).
+  { rewrite Hat in Haty. replace (a =? tr) with false in Haty by (symmetry; now apply N.eqb_neq).
+    replace (a =? kf) with false in Haty by (symmetry; now apply N.eqb_neq). exact Haty. }
+  rewrite (att_from_piece b tr ec a ty Haty0) in Nta by (clear - Hty; lia).
+  rewrite (att_from_piece b kf ec a ty Haty0) in Nka by (clear - Hty; lia).
+  destruct (type_cases ty Hty) as [Hns|Hsl].
+  { rewrite (nonslider_clause (brd (make p m')) b tr ec a ty Hns) in Hcl. congruence. }
+  rewrite (slider_clause (brd (make p m')) tr ec a ty Hsl Htr Ha) in Hcl.
+  rewrite (slider_clause b tr ec a ty Hsl Htr Ha) in Nta.
+  rewrite (slider_clause b kf ec a ty Hsl Hkf Ha) in Nka.
+  unfold slide_in in Hcl, Nta, Nka. apply existsb_exists in Hcl as [e [He Hr']].
+  assert (Nte : ray_in (occ_of b) e tr a = false).
+  { destruct (ray_in (occ_of b) e tr a) eqn:X; [|reflexivity].
+    assert (Y : existsb (fun d => ray_in (occ_of b) d tr a) (dirs_of ty) = true) by (apply existsb_exists; now exists e). congruence. }
+  assert (Nke : ray_in (occ_of b) e kf a = false).
+  { destruct (ray_in (occ_of b) e kf a) eqn:X; [|reflexivity].
+    assert (Y : existsb (fun d => ray_in (occ_of b) d kf a) (dirs_of ty) = true) by (apply existsb_exists; now exists e). congruence. }
+  rewrite ray_in_char in Hr', Nte. apply andb_true_iff in Hr' as [R0 Rf']. rewrite R0 in Nte. cbn [andb] in Nte.
+  destruct (forallb_false_ex _ _ Nte) as [u [Hu1 Hu2]]. rewrite forallb_forall in Rf'. pose proof (Rf' u Hu1) as Hu3.
+  pose proof (btw_lt _ _ _ _ Hu1) as Hu64.
+  assert (Eu : u = kf).
+  { rewrite free_occ in Hu2, Hu3 by exact Hu64. apply N.eqb_neq in Hu2. apply N.eqb_eq in Hu3. rewrite Hat in Hu3.
+    destruct (N.eqb_spec u tr) as [X|X]; [rewrite Hk in Hu3; now apply mkp_king_nz in Hu3|].
+    destruct (N.eqb_spec u kf) as [Y|Y]; [exact Y|contradiction]. }
+  subst u. destruct (transit_geom kf tr e a Hp Ha) as [_ G]. destruct (G R0 Hu1) as [Rk Hsub].
+  rewrite ray_in_char, Rk in Nke. cbn [andb] in Nke.
+  destruct (forallb_false_ex _ _ Nke) as [w [Hw1 Hw2]].
+  pose proof (Hsub w Hw1) as Hw3. pose proof (Rf' w Hw3) as Hw4. pose proof (btw_lt _ _ _ _ Hw1) as Hw64.
+  destruct (btw_not_ends e kf a w Hkf Ha Rk Hw1) as [Nwk _]. destruct (btw_not_ends e tr a w Htr Ha R0 Hw3) as [Nwt _].
+  rewrite free_occ in Hw2, Hw4 by exact Hw64. apply N.eqb_neq in Hw2. apply N.eqb_eq in Hw4. rewrite Hat in Hw4.
+  replace (w =? tr) with false in Hw4 by (symmetry; now apply N.eqb_neq).
+  replace (w =? kf) with false in Hw4 by (symmetry; now apply N.eqb_neq). contradiction.
+Qed.
+
+End CastleStep.
+
+(** ** HasLegalMove answers true exactly when there is a legal move *)
+Section Exact.
+Variable prom_nq : bool.
+Variable p : pos.
+Hypothesis Hlegal : legal_pos p = true.
+Local Notation b := (brd p).
+Local Notation c := (stm p).
+Local Notation k0 := (king_sq (brd p) (stm p)).
+Local Notation lg := (spec_legal_code p).
+
+Lemma lg_code m : valid_mv m -> lg (code m) = is_legal p m.
+Proof. apply spec_legal_code_code. Qed.
+
+Lemma own_or_not t : t < 64 -> N.testbit (occ_word b c) t = false -> free_or_enemy b c t = true.
+Proof.
+  intros Ht H. rewrite (own_bit p Hlegal (fun _ => true) t Ht) in H. unfold free_or_enemy.
+  destruct (at_ b t =? 0); [reflexivity|]. cbn [negb andb orb] in *. now rewrite H.
+Qed.
+Lemma not_own t : t < 64 -> free_or_enemy b c t = true -> N.testbit (occ_word b c) t = false.
+Proof.
+  intros Ht H. rewrite (own_bit p Hlegal (fun _ => true) t Ht). unfold free_or_enemy in H.
+  destruct (at_ b t =? 0); [reflexivity|]. cbn [negb andb orb] in *. apply negb_true_iff in H. now rewrite H.
+Qed.
+Lemma target_state t : free_or_enemy b c t = true -> at_ b t = 0 \/ (at_ b t <> 0 /\ colour_of (at_ b t) <> c).
+Proof.
+  unfold free_or_enemy. destruct (N.eqb_spec (at_ b t) 0) as [E|E]; [now left|right].
+  cbn [orb] in H. apply negb_true_iff, N.eqb_neq in H. now split.
+Qed.
+
+(* a piece move (king or officer) from its candidate list *)
+Lemma piece_cand ty from to : from < 64 -> (3 <= ty <= 6 \/ ty = KING) -> at_ b from = mk_piece c ty ->
+  In to (spec_targets b ty from) -> free_or_enemy b c to = true ->
+  In (mkmv from to NORMAL 3) (pseudo p) /\ mk_code from to NORMAL PT_NONE = code (mkmv from to NORMAL 3) /\
+  valid_mv (mkmv from to NORMAL 3).
+Proof.
+  intros Hf Hty Hat Ht Hfe. pose proof (spec_targets_lt _ _ _ _ Ht) as Hto. split; [|split].
+  - apply pseudo_of_shape. now apply (ps_simple p from to ty).
+  - now apply mk_code_normal.
+  - now apply valid_normal.
+Qed.
+
+Lemma cand_sound x : In x (hl_cands p) -> lg x = true -> exists m, In m (pseudo p) /\ is_legal p m = true.
+Proof.
+  intros Hx Hl. destruct (king_facts p Hlegal) as (K1 & K2 & K3).
+  pose proof (legal_wfp p Hlegal) as Hw. pose proof (wf_stm p Hw) as Hc.
+  unfold hl_cands in Hx. repeat (apply in_app_or in Hx as [Hx|Hx]).
+  - (* king *)
+    unfold hl_king in Hx. apply (to_list_in k0 _ x (ldiff_lt _ _ (bb_of_lt _ (king_targets_lt k0)))) in Hx as [to [Hb ->]].
+    rewrite N.ldiff_spec, bb_of_testbit in Hb. apply andb_true_iff in Hb as [Hb1 Hb2].
+    apply existsb_eqb_In in Hb1. apply negb_true_iff in Hb2. pose proof (king_targets_lt _ _ Hb1) as Hto.
+    destruct (piece_cand KING k0 to K1 (or_intror eq_refl) K2 Hb1 (own_or_not to Hto Hb2)) as (P1 & P2 & P3).
+    exists (mkmv k0 to NORMAL 3). split; [exact P1|]. now rewrite <- (lg_code _ P3), <- P2.
+  - (* double steps *)
+    apply (double_class prom_nq p Hlegal) in Hx. apply class_codes_in in Hx as (m & Hm & _ & <-).
+    exists m. split; [exact Hm|]. now rewrite <- (lg_code m (pseudo_valid p m Hw Hm)).
+  - (* single steps *)
+    unfold hl_push in Hx. apply (loop_in p (push_word p) (fwd c) normal1 x (push_word_lt p)) in Hx.
+    2:{ intros t Ht. apply push_word_bit in Ht as [s [Hs [E _]]]. now exists s. }
+    destruct Hx as (s & t & [Hs Hat] & E & Hb & [<-|[]]). apply push_word_bit in Hb as (s' & _ & _ & E0).
+    assert (Ht : t < 64) by now apply step_lt in E.
+    rewrite (mk_code_normal s t Hs Ht), (lg_code _ (valid_normal s t Hs Ht)) in Hl.
+    destruct (N.eq_dec (rank_of t) (last_rank c)) as [Er|Er].
+    + exists (mkmv s t PROMOTION QUEEN). split.
+      * apply pseudo_of_shape. apply (ps_pawn p s _ Hs Hat). apply (pawn_moves_pmove prom_nq). eexists.
+        apply (pm_promo prom_nq p s t QUEEN E E0 Er). now left.
+      * rewrite <- (normal_probe_legal p Hlegal s t QUEEN Hs Ht Hat (or_introl E0) (or_introl eq_refl)). exact Hl.
+    + exists (mkmv s t NORMAL 3). split; [|exact Hl].
+      apply pseudo_of_shape. apply (ps_pawn p s _ Hs Hat). apply (pawn_moves_pmove prom_nq). eexists.
+      apply (pm_single prom_nq p s t E E0 Er).
+  - (* captures west *)
+    unfold hl_cap in Hx. apply (loop_in p (cap_word p DW) (capdir c DW) normal1 x (cap_word_lt p DW)) in Hx.
+    2:{ intros t Ht. apply (cap_word_bit p Hlegal) in Ht as [s [Hs [E _]]]. now exists s. }
+    destruct Hx as (s & t & [Hs Hat] & E & Hb & [<-|[]]). apply (cap_word_bit p Hlegal) in Hb as (s' & _ & _ & Een).
+    assert (Ht : t < 64) by now apply step_lt in E.
+    assert (Hin : In t (pawn_attack_targets c s)) by (apply (pawn_targets_dirs c s t Hc); now left).
+    assert (Hto : at_ b t = 0 \/ (at_ b t <> 0 /\ colour_of (at_ b t) <> c)).
+    { right. unfold enemy in Een. apply andb_true_iff in Een as [A B]. apply negb_true_iff, N.eqb_neq in A, B. now split. }
+    rewrite (mk_code_normal s t Hs Ht), (lg_code _ (valid_normal s t Hs Ht)) in Hl.
+    destruct (N.eq_dec (rank_of t) (last_rank c)) as [Er|Er].
+    + exists (mkmv s t PROMOTION QUEEN). split.
+      * apply pseudo_of_shape. apply (ps_pawn p s _ Hs Hat). apply (pawn_moves_pmove prom_nq). eexists.
+        apply (pm_cappromo prom_nq p s t QUEEN Hin Een Er). now left.
+      * rewrite <- (normal_probe_legal p Hlegal s t QUEEN Hs Ht Hat Hto (or_introl eq_refl)). exact Hl.
+    + exists (mkmv s t NORMAL 3). split; [|exact Hl].
+      apply pseudo_of_shape. apply (ps_pawn p s _ Hs Hat). apply (pawn_moves_pmove prom_nq). eexists.
+      apply (pm_cap prom_nq p s t Hin Een Er).
+  - (* captures east *)
+    unfold hl_cap in Hx. apply (loop_in p (cap_word p DE) (capdir c DE) normal1 x (cap_word_lt p DE)) in Hx.
+    2:{ intros t Ht. apply (cap_word_bit p Hlegal) in Ht as [s [Hs [E _]]]. now exists s. }
+    destruct Hx as (s & t & [Hs Hat] & E & Hb & [<-|[]]). apply (cap_word_bit p Hlegal) in Hb as (s' & _ & _ & Een).
+    assert (Ht : t < 64) by now apply step_lt in E.
+    assert (Hin : In t (pawn_attack_targets c s)) by (apply (pawn_targets_dirs c s t Hc); now right).
+    assert (Hto : at_ b t = 0 \/ (at_ b t <> 0 /\ colour_of (at_ b t) <> c)).
+    { right. unfold enemy in Een. apply andb_true_iff in Een as [A B]. apply negb_true_iff, N.eqb_neq in A, B. now split. }
+    rewrite (mk_code_normal s t Hs Ht), (lg_code _ (valid_normal s t Hs Ht)) in Hl.
+    destruct (N.eq_dec (rank_of t) (last_rank c)) as [Er|Er].
+    + exists (mkmv s t PROMOTION QUEEN). split.
+      * apply pseudo_of_shape. apply (ps_pawn p s _ Hs Hat). apply (pawn_moves_pmove prom_nq). eexists.
+        apply (pm_cappromo prom_nq p s t QUEEN Hin Een Er). now left.
+      * rewrite <- (normal_probe_legal p Hlegal s t QUEEN Hs Ht Hat Hto (or_introl eq_refl)). exact Hl.
+    + exists (mkmv s t NORMAL 3). split; [|exact Hl].
+      apply pseudo_of_shape. apply (ps_pawn p s _ Hs Hat). apply (pawn_moves_pmove prom_nq). eexists.
+      apply (pm_cap prom_nq p s t Hin Een Er).
+  - (* officers *)
+    unfold hl_off in Hx. apply in_flat_map in Hx as [pt [Hpt Hx]].
+    assert (Ho : officer pt) by (unfold officer; cbn [In] in Hpt; destruct Hpt as [<-|[<-|[<-|[<-|[]]]]]; auto).
+    destruct (officer_lt pt Ho) as (H7 & Hnz & Hr).
+    unfold hl_off_pt in Hx. apply in_flat_map in Hx as [from [Hf Hx]].
+    apply (sq_list_in _ from (piece_word_lt b c pt)) in Hf. apply (piece_bit p pt from Hnz) in Hf as [Hf Hat].
+    apply (to_list_in from _ x (ldiff_lt _ _ (att_word_lt p pt from))) in Hx as [to [Hb ->]].
+    rewrite N.ldiff_spec in Hb. apply andb_true_iff in Hb as [Hb1 Hb2].
+    apply (att_word_bit p Hlegal pt from to Ho) in Hb1. apply negb_true_iff in Hb2.
+    pose proof (spec_targets_lt _ _ _ _ Hb1) as Hto.
+    destruct (piece_cand pt from to Hf (or_introl Hr) Hat Hb1 (own_or_not to Hto Hb2)) as (P1 & P2 & P3).
+    exists (mkmv from to NORMAL 3). split; [exact P1|]. now rewrite <- (lg_code _ P3), <- P2.
+  - (* en passant *)
+    apply (comp_class prom_nq p Hlegal 4 x ltac:(lia)) in Hx. apply class_codes_in in Hx as (m & Hm & _ & <-).
+    exists m. split; [exact Hm|]. now rewrite <- (lg_code m (pseudo_valid p m Hw Hm)).
+  - apply (comp_class prom_nq p Hlegal 5 x ltac:(lia)) in Hx. apply class_codes_in in Hx as (m & Hm & _ & <-).
+    exists m. split; [exact Hm|]. now rewrite <- (lg_code m (pseudo_valid p m Hw Hm)).
+Qed.
+
+End Exact.
